@@ -219,9 +219,10 @@ func c19Unit(c *RunCtx, unit int) {
 	}
 	cfg := world.Cfg{Modules: shuffled(r, mods), Mount: pickS(r, "/auth", ""), JSON: r.Intn(2) == 0, Err500: r.Intn(2) == 0, ProfileKeys: []string{"name"},
 		PreserveFields: [][]string{nil, {"name", "email"}, {"zip", "name", "email", "city"}}[r.Intn(3)], Localizer: []string{"", "empty", "partial"}[r.Intn(3)], NilSessionState: r.Intn(3) == 0}
-	cfg.AppendedRules = unit%2 == 1    // the application appended rules of its own to the shipped rulesets
-	cfg.SeparateEmail = unit%3 == 2    // a username site: a new account has no e-mail address of its own yet
-	cfg.AllowWSPasswords = unit%4 == 3 // the application's password rule allows blanks (pass-phrases)
+	cfg.AppendedRules = unit%2 == 1                             // the application appended rules of its own to the shipped rulesets
+	cfg.SeparateEmail = unit%3 == 2                             // a username site: a new account has no e-mail address of its own yet
+	cfg.AccessLog = []string{"", "", "load", "current"}[unit%4] // an application pre-loader that resolves the visitor before the routes run
+	cfg.AllowWSPasswords = unit%4 == 3                          // the application's password rule allows blanks (pass-phrases)
 	regWL := []string{"email", "password"}
 	switch r.Intn(4) {
 	case 3:
